@@ -79,6 +79,12 @@ CONFIGS = {
     "public": dict(allow_public_attrs=True, allow_setattr=True, allow_delattr=True),
     "default": dict(),
 }
+# configurations used for particular targets only (not part of the policy comparison with the model)
+EXTRA_CONFIGS = {
+    # classic without the `exposed_` prefix: _check_attr's hasattr(obj, "exposed_" + name) probe is off, so a target whose
+    # __getattr__ answers every name is not asked for names nobody used
+    "classic-noprefix": dict(CONFIGS["classic"], allow_exposed_attrs=False),
+}
 ADDR = re.compile(r"0x[0-9a-fA-F]+")
 KNOWN_TYPE_METHODS = "builtin-instance-proxy-has-type-methods"
 KNOWN_POLICY_PROBE = "policy-probe-evaluates-attribute"
@@ -321,6 +327,88 @@ class Probed(object):
         return self.n
 
 
+class Hooked(object):
+    """a class that brings its own access hooks (`_rpyc_getattr` / `_rpyc_setattr` / `_rpyc_delattr`, as Service and
+    restricted() do).  They simply delegate, so whatever the connection's configuration says, an operation through a proxy
+    is the operation itself; rich comparisons and a value-based hash over mutable state"""
+
+    def __init__(self, seed):
+        self.level = seed % 5
+        self.tag = "h"
+        self.log = []
+        self._hidden = 7
+
+    def _rpyc_getattr(self, name):
+        return getattr(self, name)
+
+    def _rpyc_setattr(self, name, value):
+        return setattr(self, name, value)
+
+    def _rpyc_delattr(self, name):
+        return delattr(self, name)
+
+    def _key(self, o):
+        if isinstance(o, Hooked):
+            return o.level
+        if type(o) is int:
+            return o
+        return None
+
+    def __eq__(self, o):
+        k = self._key(o)
+        return NotImplemented if k is None else self.level == k
+
+    def __ne__(self, o):
+        k = self._key(o)
+        return NotImplemented if k is None else self.level != k
+
+    def __lt__(self, o):
+        k = self._key(o)
+        return NotImplemented if k is None else self.level < k
+
+    def __le__(self, o):
+        k = self._key(o)
+        return NotImplemented if k is None else self.level <= k
+
+    def __gt__(self, o):
+        k = self._key(o)
+        return NotImplemented if k is None else self.level > k
+
+    def __ge__(self, o):
+        k = self._key(o)
+        return NotImplemented if k is None else self.level >= k
+
+    def __hash__(self):
+        return hash(("Hooked", self.level))
+
+    @property
+    def double(self):
+        return 2 * self.level
+
+    def bump(self, by=1):
+        self.level += by
+        self.log.append("bump")
+        return self.level
+
+
+class Tree(object):
+    """an auto-vivifying namespace: reading ANY name that is not there creates a child node under that name and returns
+    it (with the usual guard that double-underscore names are never vivified); the whole tree is the observable state"""
+
+    def __getattr__(self, name):
+        if name.startswith("__"):
+            raise AttributeError(name)
+        node = Tree()
+        object.__setattr__(self, name, node)
+        return node
+
+    def count(self):
+        return 1 + sum(v.count() for v in vars(self).values() if type(v) is Tree)
+
+    def names(self):
+        return tuple(sorted(vars(self)))
+
+
 class CustomError(Exception):
     """a user exception class, importable by name"""
 
@@ -534,7 +622,12 @@ def gen_squares(n, fail_at=None):
 
 
 KINDS = ["list", "dict", "set", "bytearray", "deque", "generator", "bytesio", "vec", "pairs", "counting",
-         "shape-call", "shape-seq", "shape-ctx", "shape-ops"]
+         "shape-call", "shape-seq", "shape-ctx", "shape-ops", "hooked", "autoviv"]
+
+
+def config_for(kind, config_name):
+    """the configuration a sequence on a target of this kind runs under"""
+    return "classic-noprefix" if kind == "autoviv" else config_name
 
 
 def make_object(kind, seed):
@@ -566,6 +659,13 @@ def make_object(kind, seed):
         return Pairs(r.below(1000))
     if kind == "counting":
         return Counting(r.below(1000))
+    if kind == "hooked":
+        return Hooked(r.below(1000))
+    if kind == "autoviv":
+        t = Tree()
+        for nm in ["alpha", "beta", "alpha"][:r.below(4)]:
+            getattr(t, nm)
+        return t
     if kind in SHAPES:
         return SHAPES[kind](r.below(1000))
     raise ValueError(kind)
@@ -595,7 +695,7 @@ def snap(o, depth=0):
         return ("bytearray", bytes(o).hex())
     if t is collections.deque:
         return ("deque", [snap(x, depth + 1) for x in o], o.maxlen)
-    if t is Vec or t is Pairs or t is Counting or t is Probed or t in SHAPES.values():
+    if t is Vec or t is Pairs or t is Counting or t is Probed or t is Hooked or t is Tree or t in SHAPES.values():
         return (t.__name__, sorted((k, repr(snap(v, depth + 1))) for k, v in vars(o).items()))
     if t is io.BytesIO:
         return ("BytesIO", True) if o.closed else ("BytesIO", False, o.getvalue().hex(), o.tell())
@@ -632,10 +732,12 @@ class Session(object):
             def exposed_get(self, k):
                 return sess.objs[k]
 
+        if config_name in EXTRA_CONFIGS:
+            SideB.get = SideB.exposed_get        # no `exposed_` prefix in this configuration: the root's method by its plain name
         self.net = Net()
         self.cm = self.net.installed()
         self.cm.__enter__()
-        cfg = CONFIGS[config_name]
+        cfg = CONFIGS[config_name] if config_name in CONFIGS else EXTRA_CONFIGS[config_name]
         self.ca, self.cb = self.net.connect_pair(None, SideB(), dict(cfg), dict(cfg))
         self.root = self.ca.root
         self.nframes = len(self.net.frames)
@@ -942,6 +1044,8 @@ def build_ops():
         O("getattr", lambda o, n: getattr(o, n), ("attrname",), None),
         O("setattr", lambda o, n, v: setattr(o, n, v), ("attrname", "value"), None),
         O("delattr", lambda o, n: delattr(o, n), ("attrname",), None),
+        # reading through a node that the first read may just have created
+        O("getattr-chain", lambda o, a, b: getattr(getattr(o, a), b), ("attrname", "attrname"), None, kinds=["autoviv"]),
         O("method", None, ("methodcall",), None),
         O("call", lambda o, a, n, b, m: o(a, **{n: b, m: a}), ("value", "kwname", "any", "kwname"), [],
           kinds=["vec", "shape-call", "shape-seq", "shape-ctx", "shape-ops"]),
@@ -1011,6 +1115,8 @@ METHODS = {
             ("boom", ()), ("boom", ("excname", "value")), ("peer", ()), ("exposed_secret", ()), ("_coerce", ("value",))],
     "shape-call": [("describe", ())], "shape-seq": [("describe", ())], "shape-ctx": [("describe", ())], "shape-ops": [("describe", ())],
     "counting": [("touch", ()), ("touch", ("smallint",)), ("touch", ("kw:by",)), ("missing_method", ())],
+    "hooked": [("bump", ()), ("bump", ("smallint",)), ("bump", ("kw:by",)), ("missing_method", ()), ("_key", ("value",))],
+    "autoviv": [("count", ()), ("names", ()), ("count", ())],
     "pairs": [("read", ()), ("exposed_read", ()), ("bump", ()), ("bump", ("smallint",)), ("exposed_bump", ()),
               ("exposed_bump", ("kw:by",)), ("read", ()), ("exposed_read", ())],
 }
@@ -1024,6 +1130,8 @@ ATTRS = {"vec": ["xs", "log", "tag", "norm", "first", "_hidden", "missing", "new
          "deque": ["maxlen", "missing"],
          "shape-call": ["items", "log", "missing"], "shape-seq": ["items", "log", "missing"], "shape-ctx": ["items", "log", "missing"],
          "shape-ops": ["items", "log", "missing"],
+         "hooked": ["level", "tag", "log", "_hidden", "missing", "double", "bump", "new_attr", "level", "__doc__"],
+         "autoviv": ["alpha", "beta", "alpha", "_private", "exposed_gamma", "x", "delta"],
          "counting": ["p", "p", "ok_p", "ok_p", "missing", "other_missing", "n", "m", "asked", "touch"],
          "pairs": ["level", "exposed_level", "mode", "exposed_mode", "level", "exposed_level", "mode", "exposed_mode", "read",
                    "exposed_read", "log", "missing", "_mode"]}
@@ -1185,7 +1293,7 @@ def is_builtin_instance(x):
 
 def safe_hasattr(o, n):
     """hasattr for the harness's own bookkeeping: must not disturb a twin whose attribute reads have side effects"""
-    if type(o) in (Counting, Probed):
+    if type(o) in (Counting, Probed, Tree):
         import inspect
         try:
             inspect.getattr_static(o, n)
@@ -1201,7 +1309,7 @@ def safe_hasattr(o, n):
 def config_allows(config_name, perm, name):
     """the attribute policy as the documentation of DEFAULT_CONFIG states it (for names without an `exposed_` twin):
     used only to decide whether `hasattr` / `getattr(.., default)` - which swallow the refusal - are performed"""
-    if config_name == "classic":
+    if config_name in ("classic", "classic-noprefix"):
         return True
     from rpyc.core.protocol import DEFAULT_CONFIG
     if perm != "get" and config_name == "default":
@@ -1341,7 +1449,7 @@ def run_sequence(kind, config_name, seed, seq, ops, stop_at_first=True, skip_sig
                 # operation the twin would perform; neither run performs it
                 tw.observations["access to a missing name answered by its exposed_ namesake (by design, not the same operation): not performed"] += 1
                 continue
-            if spec.label in ("hasattr", "getattr-default") and not config_allows(config_name, "get", operands[0].for_twin):
+            if spec.label in ("hasattr", "getattr-default") and kind != "hooked" and not config_allows(config_name, "get", operands[0].for_twin):
                 # both swallow the AttributeError of a refusal: whether the target was asked at all would not show
                 tw.observations["hasattr / getattr-with-default of a name the configuration refuses: not performed"] += 1
                 continue
@@ -1414,7 +1522,9 @@ def run_sequence(kind, config_name, seed, seq, ops, stop_at_first=True, skip_sig
                             tw.target, tw.twin, tw.proxy = tw.sess.behind(val_p), val_t, val_p
                             tw.pairs[0], tw.pairs[-1] = tw.pairs[-1], tw.pairs[0]
             # policy record (single-name operations on objects without hooks)
-            if names is not None and len(names) == 1 and config_name in CONFIGS:
+            if names is not None and len(names) == 1 and config_name in CONFIGS and (kind != "hooked" or label.startswith("cmp:")):
+                # (an object with `_rpyc_*attr` hooks answers for itself - not the configuration's policy, C06; a comparison
+                # is looked up on its TYPE, which has no hooks)
                 perm, nm = names[0]
                 dunder_template = spec.label.split(":")[0] in ("op", "rop", "iop", "unary", "conv", "next", "format", "matmul", "len",
                                                               "contains", "getitem", "getitem-slice", "setitem", "setitem-slice",
@@ -1583,6 +1693,11 @@ COMPARISON_PAIRS = {
     "Celsius == Celsius": (lambda: Celsius(5), lambda: Celsius(5)),
     "Celsius == value": (lambda: Celsius(5), lambda: 5),
     "Vec == Pairs (neither knows the other)": (lambda: Vec([1]), lambda: Pairs(1)),
+    # a class that defines _rpyc_getattr for its INSTANCES: the comparison method is looked up on the class object
+    "Hooked == Hooked (the class brings its own access hooks)": (lambda: Hooked(3), lambda: Hooked(8)),
+    "Hooked == other Hooked": (lambda: Hooked(3), lambda: Hooked(4)),
+    "Hooked == value": (lambda: Hooked(3), lambda: 3),
+    "Hooked == Vec (neither knows the other)": (lambda: Hooked(3), lambda: Vec([3])),
 }
 CMP_FUNCS = [("==", operator.eq), ("!=", operator.ne), ("<", operator.lt), ("<=", operator.le), (">", operator.gt), (">=", operator.ge)]
 
@@ -1745,6 +1860,70 @@ def policy_probe_case(config_name="public"):
     return steps, problems
 
 
+ACCESS_HOOK_STEPS = {
+    "hooked": (lambda: Hooked(3), [
+        ("p.level", lambda o: o.level), ("p._hidden", lambda o: o._hidden), ("p.double", lambda o: o.double),
+        ("p.level = 9", lambda o: setattr(o, "level", 9)), ("p.extra = 'x'", lambda o: setattr(o, "extra", "x")),
+        ("p.extra", lambda o: o.extra), ("del p.extra", lambda o: delattr(o, "extra")), ("del p.missing", lambda o: delattr(o, "missing")),
+        ("p.bump(by=2)", lambda o: o.bump(by=2)), ("p == 11", lambda o: o == 11), ("p != 11", lambda o: o != 11),
+        ("p < 3", lambda o: o < 3), ("p >= 11", lambda o: o >= 11), ("p == 'a'", lambda o: o == "a"), ("p.missing", lambda o: o.missing),
+        ("hash(p)", lambda o: hash(o) == hash(("Hooked", 11))),
+    ]),
+    "autoviv": (lambda: Tree(), [
+        ("t.count()", lambda o: o.count()), ("t.alpha", lambda o: o.alpha), ("t.alpha.beta", lambda o: o.alpha.beta),
+        ("t.names()", lambda o: o.names()), ("t.x = 5", lambda o: setattr(o, "x", 5)), ("t.x", lambda o: o.x),
+        ("del t.x", lambda o: delattr(o, "x")), ("del t.never", lambda o: delattr(o, "never")), ("hasattr(t, 'gamma')", lambda o: hasattr(o, "gamma")),
+        ("t._private", lambda o: o._private), ("getattr(t, 'delta', None)", lambda o: getattr(o, "delta", None)),
+        ("t == t.alpha", lambda o: o == o.alpha), ("t.count()", lambda o: o.count()),
+    ]),
+}
+
+
+def access_hooks_case(which, config_name):
+    """targets whose own attribute machinery could be mistaken for rpyc's access hooks: a class that defines the
+    `_rpyc_*attr` hooks (delegating), and a namespace whose __getattr__ answers every name.  Every step is done through
+    the proxy and on a twin; results and the deep state of the target are compared after each step"""
+    from rpyc.core import brine
+    mk, todo = ACCESS_HOOK_STEPS[which]
+    sess = Session(config_name)
+    steps, problems = [], []
+
+    def show(kv, via_proxy):
+        k, v = kv
+        if k != "ok":
+            return (k, v)
+        if brine.dumpable(v):
+            return (k, valtext.canon(v))
+        if via_proxy:
+            return (k, snap(sess.behind(v))) if sess.is_proxy(v) else (k, "not a proxy: " + repr(snap(v)))
+        return (k, snap(v))
+
+    try:
+        far, twin = mk(), mk()
+        p = sess.lend(far)
+        for text, f in todo:
+            rp, exp = outcome(lambda: f(p))
+            rt, ext = outcome(lambda: f(twin))
+            rp, rt = show(rp, True), show(rt, False)
+            sp, st = snap(far), snap(twin)
+            steps.append((text, str(rp)[:200], str(rt)[:200]))
+            if rp != rt:
+                problems.append((len(steps) - 1, text, "through the proxy %r, on the target %r" % (rp, rt), "twin:access-hooks"))
+                break
+            if sp != st:
+                problems.append((len(steps) - 1, text, "afterwards the target's state is %r, the twin's %r" % (sp, st), "twin:access-hooks"))
+                break
+        if not sess.usable():
+            problems.append((len(steps), "end", "the connection is not usable afterwards", "twin:access-hooks"))
+    except Exception as ex:  # noqa
+        problems.append((len(steps), "setup", "could not run: %s" % type(ex).__name__, "twin:access-hooks"))
+    finally:
+        died = sess.close()
+    if died:
+        problems.append((len(steps), "end", "the serving side died: %r" % (died[:1],), "twin:access-hooks"))
+    return steps, problems
+
+
 def fixed_cases():
     """deterministic cases run every time: (kind, parameters)"""
     out = [("class_instance", list(c)) for c in class_instance_cases()]
@@ -1752,6 +1931,8 @@ def fixed_cases():
     out += [("exception_class", [])]
     out += [("keyword_names", [cfg]) for cfg in ("classic", "public")]
     out += [("policy_probe", ["public"])]
+    out += [("access_hooks", ["hooked", cfg]) for cfg in ("classic", "public", "default")]
+    out += [("access_hooks", ["autoviv", "classic-noprefix"])]
     return out
 
 
@@ -1766,6 +1947,8 @@ def run_fixed(kind, params):
         return keyword_names_case(*params)
     if kind == "policy_probe":
         return policy_probe_case(*params)
+    if kind == "access_hooks":
+        return access_hooks_case(*params)
     raise ValueError(kind)
 
 
@@ -1826,7 +2009,7 @@ def correspondence(ctx):
         if time.time() > deadline:
             break
         kind = KINDS[k % len(KINDS)]
-        config_name = ["classic", "classic", "public", "default"][r.below(4)]
+        config_name = config_for(kind, ["classic", "classic", "public", "default"][r.below(4)])
         seed = r.next() % 100000
         seq = gen_sequence(r.fork("s%d" % k), kind, 3 + r.below(23), ops)
         problems, tw = run_sequence(kind, config_name, seed, seq, ops, skip_signatures=known_sigs)
@@ -2024,7 +2207,7 @@ def boundary_sequences(ops):
         cands = [i for i, o in enumerate(ops) if o.kinds is None or kind in o.kinds]
         for cfg in ("classic", "public", "default"):
             seq = [(i, r.next()) for i in cands]
-            out.append((kind, cfg, 5, seq))
+            out.append((kind, config_for(kind, cfg), 5, seq))
     return out
 
 
@@ -2091,7 +2274,7 @@ def oracle_search(ctx, corr, broken):
         while time.time() < deadline:
             k += 1
             kind = KINDS[k % len(KINDS)]
-            yield kind, ["classic", "public", "default"][k % 3], r.next() % 100000, gen_sequence(r.fork("q%d" % k), kind, 3 + r.below(23), ops)
+            yield kind, config_for(kind, ["classic", "public", "default"][k % 3]), r.next() % 100000, gen_sequence(r.fork("q%d" % k), kind, 3 + r.below(23), ops)
 
     for kind, cfg, seed, seq in candidates():
         try:
